@@ -397,11 +397,13 @@ pub fn reserve_error_text() {
 /// cover every value (a symbolic capacity up to 2^40 together with content reads does not scale):
 /// `class` 0: n <= 40 (all content checks), 1: 40 < n <= 2^40-64 (granted; only len/capacity/
 /// block size/sharers are observed), 2: n > 2^40-64 up to usize::MAX (must fail cleanly).
-pub fn sizes_reserve(kind: u8, fam: u8, n0: usize, cap: usize, ns: u8, len: usize, la: usize, lb: usize, tgt_clone: bool, plain: bool, class: u8, tf: bool) {
+pub fn sizes_reserve(kind: u8, fam: u8, n0: usize, cap: usize, ns: u8, len: usize, la: usize, lb: usize, tgt_clone: bool, plain: bool, class: u8, lit: usize, tf: bool) {
     let mut s = build(kind, fam, n0, cap, ns, len, la, lb, tgt_clone);
     let sa = see(&s.a);
     let sb = see(&s.b);
-    let n: usize = kani::any();
+    // class 0 enumerates literal boundary values (a symbolic small n makes the capacity of a block
+    // whose content is read symbolic, which exhausts memory); classes 1 and 2 are fully symbolic
+    let n: usize = if lit != usize::MAX { lit } else { kani::any() };
     match class {
         0 => kani::assume(n <= 40),
         1 => kani::assume(n > 40 && n <= shim::LIMIT - 64),
